@@ -19,19 +19,21 @@
 //   auth_sleep <secs>                      sleeps secs + 0.15 s                     -> Z
 //   auth_cmd <uid|-> <desc> <text>         parse_command + dispatch_command(.., Some(uid), JsonRenderer)
 //                                          -> <status> rows=<n> types=<sorted,hex> | PARSE | PANIC
-//   auth_tcp <conn> <desc> <line>          one line over a loopback connection to the real
+//   auth_cfg <expiry>                      (model only: session expiry of this history)     -> CFG
+//   auth_tcp <conn> <desc> <exp> <line>    one line over a loopback connection to the real
 //                                          run_tcp_server (check_auth + dispatch, UnixRenderer)
 //                                          -> AUTHFAIL | TOKEN | <status> | PARSEERR
 //   auth_tcpclose <conn>                                                           -> C
-//   auth_unix <desc> <line>                one line through frontend::unix::Connection::run
+//   auth_unix <desc> <exp> <line>          one line through frontend::unix::Connection::run
 //                                          -> AUTHFAIL | <status> | PARSEERR
-//   auth_http <uid|-> <sig|-> <desc> <body>   POST /command with X-Auth-User / X-Auth-Signature
+//   auth_http <uid|-> <sig|-> <desc> <exp> <body>   POST /command with X-Auth-User / X-Auth-Signature
 //                                          -> AUTHFAIL | <status> | PARSEERR
 //
 // Every text argument is hex; inside the decoded text `@{slot}` is replaced by the value
 // remembered for the slot (session tokens are random, signatures are 64 hex chars), so
 // the same case line is meaningful for the model, which has its own token values.
-// `<desc>` (the abstract command the text denotes) is ignored here; only the model reads it.
+// `<desc>` (the abstract command the text `<exp>` denotes) is ignored here; only the model reads
+// it.  A successful AUTH on connection <conn> stores its token in slot `auth:<conn>`.
 use crate::probes::{hexs, unhex};
 use snel_db::command::dispatcher::dispatch_command;
 use snel_db::command::parser::parse_command;
@@ -286,6 +288,10 @@ fn tcp_line(conn: &str, line: &str) -> String {
                 Ok(Ok(0)) => return "EOF".to_string(),
                 Ok(Ok(_)) => {
                     if let Some(c) = classify_unix_head(&buf) {
+                        if c == "TOKEN" {
+                            let tok = buf.trim_end()["OK TOKEN ".len()..].to_string();
+                            gl.slots.lock().unwrap().insert(format!("auth:{}", conn), tok);
+                        }
                         return c;
                     }
                 }
@@ -470,13 +476,14 @@ pub fn run(t: &[String]) -> String {
                 Err(_) => "IOERR".into(),
             }
         }
-        "auth_tcp" => tcp_line(&t[1], &text(&t[3])),
+        "auth_tcp" => tcp_line(&t[1], &text(&t[4])),
         "auth_tcpclose" => {
             gl.conns.lock().unwrap().remove(&t[1]);
             "C".into()
         }
-        "auth_unix" => unix_line(&text(&t[2])),
-        "auth_http" => http_post(opt_text(&t[1]), opt_text(&t[2]), &text(&t[4])),
+        "auth_unix" => unix_line(&text(&t[3])),
+        "auth_http" => http_post(opt_text(&t[1]), opt_text(&t[2]), &text(&t[5])),
+        "auth_cfg" => "CFG".into(),
         _ => "UNKNOWN_PROBE".into(),
     }
 }
